@@ -155,6 +155,14 @@ Theorem C05_trichotomy qk r x y ua ub d fa fb Ba Bb :
   ∧ q_le r a (OQty b) = Ok (ord_le c) ∧ q_ge r a (OQty b) = Ok (ord_ge c)
   ∧ exactly_one (ord_lt c) (ord_eq c) (ord_gt c).
 Proof. exact (trichotomy_mult qk r x y ua ub d fa fb Ba Bb). Qed.
+(** in the specification's terms: < is [phys_lt], > its converse, == is [phys_eq] *)
+Theorem C05_order_is_phys_order qk r x y ua ub d fa fb Ba Bb :
+  reg_nz r → rooted r ua d 1 0 fa Ba → rooted r ub d 1 0 fb Bb →
+  mult_unit r ua d fa → mult_unit r ub d fb → (0 < fa)%Qc → (0 < fb)%Qc →
+  let a := Qty (Fin x) ua in let b := Qty (Fin y) ub in
+  (q_lt r a (OQty b) = Ok true ↔ phys_lt r a b) ∧ (q_gt r a (OQty b) = Ok true ↔ phys_lt r b a)
+  ∧ (q_eq qk r a (OQty b) = Ok true ↔ phys_eq r a b).
+Proof. exact (lt_is_phys_lt qk r x y ua ub d fa fb Ba Bb). Qed.
 (** ordering of distinct units of one dimensionality goes through root units, offset units too *)
 Theorem C05_compare_is_root_order r ma mb ua ub d sa oa fa sb ob fb Ba Bb :
   reg_nz r → rooted r ua d sa oa fa Ba → rooted r ub d sb ob fb Bb → ua ≠ ub →
